@@ -367,6 +367,7 @@ enum Action {
     LocalAddr(String),
     DropNode(String),
     Mark(String),
+    Unworld(SocketAddr),
 }
 
 fn kv<'a>(parts: &'a [&'a str], key: &str) -> Option<&'a str> {
@@ -482,6 +483,7 @@ pub fn sim(_args: &[String]) -> i32 {
                     "localaddr" => Action::LocalAddr(p[3].to_string()),
                     "drop" => Action::DropNode(p[3].to_string()),
                     "mark" => Action::Mark(p[3..].join(" ")),
+                    "unworld" => Action::Unworld(parse_addr(p[3])),
                     other => {
                         eprintln!("bad action {other}");
                         return 2;
@@ -752,6 +754,11 @@ pub fn sim(_args: &[String]) -> i32 {
                     rec(format!("NODE_DROPPED {node}"));
                 }
                 Action::Mark(s) => rec(format!("MARK {s}")),
+                // from now on no responder names this address in its node lists
+                Action::Unworld(a) => {
+                    world.lock().unwrap().nodes.retain(|(_, x)| *x != a);
+                    rec(format!("UNWORLD {}", fmt_addr(&a)));
+                }
             }
         }
         tokio::time::sleep_until(t_start + Duration::from_nanos(end)).await;
